@@ -258,6 +258,17 @@ def fam_send_failures(ck, sc, i):
     return secrets_of(sh, ['psk-of-alice-73a9c1e5', 'psk-of-bob-0d4f8b26'], dh_log=S.W.dh_log), {'family': 'send-failures', 'request': kind, 'pattern': pattern, 'errno': err}, S.W.internal_errors
 
 
+def fam_multi_homed(ck, sc, i):
+    """A daemon with two local addresses: a configured peer (PSK connection) sends IKE_SA_INIT to the address it is NOT configured for, a stranger to the right one; then the
+    real handshake. The records written for requests that match no connection name neither key."""
+    from vf.checks import c17
+    sub = type(ck)(ck.pid, ck.tier, ck.seed)
+    sim = c17.multi_homed_stray_request(sub, ck.seed * 67 + i, i, judge=False)
+    sh = SH.Shadow(S.W.dh_log, None, check_dh=False)
+    sh.feed(sim.wire)
+    return secrets_of(sh, ['psk-of-alice-73a9c1e5', 'psk-of-bob-0d4f8b26'], dh_log=S.W.dh_log), {'family': 'multi-homed', 'i': i}, S.W.internal_errors
+
+
 def fam_configuration(ck, sc, i):
     """What pyikev2.py logs at ERROR when a configuration cannot be loaded: 'Configuration error: <text of the exception>'. The text must not show a PSK or key
     material of ANY connection of the file (the broken value may be the PSK itself)."""
@@ -375,12 +386,12 @@ def fam_configuration_file(ck, sc, i):
     return secrets, {'family': 'configuration-file', 'kind': kind, 'file': text, 'exit': r.returncode}, [{'type': 'process-output', 'msg': ln} for ln in out.splitlines()]
 
 
-FAMILIES = [('success', fam_success), ('configuration', fam_configuration), ('configuration-file', fam_configuration_file), ('auth-failure', fam_impostor), ('mismatch', fam_mismatch), ('kernel-refusal', fam_kernel_faults), ('startup-refusal', fam_startup_refusals), ('hostile+lossy', fam_hostile), ('send-failures', fam_send_failures)]
+FAMILIES = [('success', fam_success), ('configuration', fam_configuration), ('configuration-file', fam_configuration_file), ('auth-failure', fam_impostor), ('mismatch', fam_mismatch), ('kernel-refusal', fam_kernel_faults), ('startup-refusal', fam_startup_refusals), ('hostile+lossy', fam_hostile), ('send-failures', fam_send_failures), ('multi-homed', fam_multi_homed)]
 
 
 def run(ck):
     thorough = ck.thorough()
-    per = {'success': 40, 'auth-failure': 120, 'mismatch': 40, 'kernel-refusal': 120, 'hostile+lossy': 60, 'configuration': 400, 'configuration-file': 48, 'startup-refusal': 40, 'send-failures': 56}
+    per = {'success': 40, 'auth-failure': 120, 'mismatch': 40, 'kernel-refusal': 120, 'hostile+lossy': 60, 'configuration': 400, 'configuration-file': 48, 'startup-refusal': 40, 'send-failures': 56, 'multi-homed': 24}
     if thorough:
         per = {k: v * 60 for k, v in per.items()}
     n = 0
